@@ -1158,7 +1158,7 @@ func c13GenAtoms(t *rapid.T, good, bad []string, max int, badOK bool, label stri
 	n := rapid.IntRange(0, max).Draw(t, label+"_n")
 	var sb strings.Builder
 	for i := 0; i < n; i++ {
-		if badOK && rapid.IntRange(0, 9).Draw(t, label+"_bad") == 0 {
+		if badOK && rapid.IntRange(0, 5).Draw(t, label+"_bad") == 3 {
 			sb.WriteString(rapid.SampledFrom(bad).Draw(t, label+"_b"))
 		} else {
 			sb.WriteString(rapid.SampledFrom(good).Draw(t, label+"_a"))
@@ -1168,10 +1168,10 @@ func c13GenAtoms(t *rapid.T, good, bad []string, max int, badOK bool, label stri
 }
 
 func c13GenURI(t *rapid.T) string {
-	if rapid.IntRange(0, 39).Draw(t, "uri_weird") == 0 {
+	if rapid.IntRange(0, 59).Draw(t, "uri_weird") == 17 {
 		return rapid.SampledFrom([]string{"", "*", "x/y", "//host/path", "http://evil.example/x", "/", "/?", "//", "/a#frag", "?q=1", "/a?b#c", "/ a", "/a? b"}).Draw(t, "uri_w")
 	}
-	badOK := rapid.IntRange(0, 7).Draw(t, "uri_badok") == 0
+	badOK := rapid.IntRange(0, 11).Draw(t, "uri_badok") == 5
 	var sb strings.Builder
 	if rapid.IntRange(0, 2).Draw(t, "uri_prefix") == 0 {
 		sb.WriteString(rapid.SampledFrom([]string{"/_matrix/federation/v1/send", "/_matrix/federation/v2/invite/!r:x.org", "/_matrix/key/v2/query", "/_matrix/federation/v1/event"}).Draw(t, "uri_pfx"))
@@ -1398,6 +1398,19 @@ func c13Mutate(t *rapid.T, v jv, depth int) jv {
 	}
 }
 
+// c13Spread draws 0..127 from seven coin flips: rapid's integer ranges favour small values, which
+// would make the first branch of a weighted switch dominate.
+func c13Spread(t *rapid.T, label string) int {
+	n := 0
+	for i := 0; i < 7; i++ {
+		n <<= 1
+		if rapid.Bool().Draw(t, label) {
+			n |= 1
+		}
+	}
+	return n
+}
+
 const c13Canon = `X-Matrix origin="$O",key="$K",sig="$S",destination="$D"`
 
 // c13GenBase draws an untampered, well-configured case.
@@ -1417,7 +1430,7 @@ func c13GenBase(t *rapid.T, allowOdd bool) (c13Case, jv) {
 	if rapid.IntRange(0, 5).Draw(t, "oldkey") == 0 {
 		c.KeyState = "expired-future"
 	}
-	if allowOdd && rapid.IntRange(0, 19).Draw(t, "oddkey") == 0 {
+	if allowOdd && rapid.IntRange(0, 24).Draw(t, "oddkey") == 11 {
 		c.KeyID = rapid.SampledFrom(c13OddKeyIDs).Draw(t, "oddkeyid")
 	}
 	var bv jv
@@ -1454,9 +1467,9 @@ var c13CTypes = []string{"text/plain", "", "application/jsonx", "text/json", "ap
 
 func c13GenRoundTrip(t *rapid.T) c13Case {
 	c, bv := c13GenBase(t, true)
-	switch what := rapid.IntRange(0, 99).Draw(t, "what"); {
+	switch what := c13Spread(t, "what") % 100; {
 	case what < 18: // untampered
-		if rapid.IntRange(0, 5).Draw(t, "twosig") == 0 {
+		if rapid.IntRange(0, 5).Draw(t, "twosig") == 2 {
 			c.Key2ID = "ed25519:second"
 			c.Key2State = rapid.SampledFrom([]string{"valid", "valid", "stale", "unknown"}).Draw(t, "k2state")
 			if rapid.Bool().Draw(t, "k1bad") {
@@ -1470,7 +1483,14 @@ func c13GenRoundTrip(t *rapid.T) c13Case {
 		}
 		c.T = c13Tamper{Kind: "method", Method: m}
 	case what < 38:
-		c.T = c13Tamper{Kind: "uri", URI: c13TamperURI(t, c.URI)}
+		if rapid.IntRange(0, 7).Draw(t, "uri_nf") == 4 {
+			// the signed URI carries an escape that net/http itself re-creates when it meets the raw character
+			p := rapid.SampledFrom([][2]string{{"%22", "\""}, {"%5E", "^"}, {"%7C", "|"}, {"%3C", "<"}, {"%C3%A9", "é"}, {"%60", "`"}, {"%7B", "{"}}).Draw(t, "uri_nfp")
+			c.T = c13Tamper{Kind: "uri", URI: "/x" + p[1] + c.URI}
+			c.URI = "/x" + p[0] + c.URI
+		} else {
+			c.T = c13Tamper{Kind: "uri", URI: c13TamperURI(t, c.URI)}
+		}
 	case what < 48: // body value changed
 		if c.HasBody {
 			c.T = c13Tamper{Kind: "body", Body: vfBytes(jspell(t, c13Mutate(t, bv, 0), "tb"))}
@@ -1588,11 +1608,11 @@ func c13GenHeaderSyntax(t *rapid.T) c13Case {
 		idx := rapid.Permutation([]int{0, 1, 2, 3}).Draw(t, "order")
 		ps = []param{ps[idx[0]], ps[idx[1]], ps[idx[2]], ps[idx[3]]}
 	}
-	if rapid.IntRange(0, 4).Draw(t, "drop") == 0 {
+	if rapid.IntRange(0, 3).Draw(t, "drop") == 0 {
 		i := rapid.IntRange(0, len(ps)-1).Draw(t, "dropi")
 		ps = append(ps[:i:i], ps[i+1:]...)
 	}
-	if rapid.IntRange(0, 4).Draw(t, "subst") == 0 {
+	if rapid.IntRange(0, 2).Draw(t, "subst") == 0 {
 		i := rapid.IntRange(0, len(ps)-1).Draw(t, "substi")
 		switch ps[i].name {
 		case "origin":
@@ -1611,13 +1631,24 @@ func c13GenHeaderSyntax(t *rapid.T) c13Case {
 		i := rapid.IntRange(0, len(ps)).Draw(t, "extrai")
 		ps = append(ps[:i:i], append([]param{e}, ps[i:]...)...)
 	}
-	seps := []string{",", ",", ",", ", ", " ,", " , ", ",\t", ",,", ";", " "}
-	quotes := [][2]string{{`"`, `"`}, {`"`, `"`}, {`"`, `"`}, {"", ""}, {`"`, ""}, {"", `"`}, {"'", "'"}, {`""`, `""`}, {`"`, `" `}, {` "`, `"`}}
-	eqs := []string{"=", "=", "=", "=", " = ", "= ", ":", "=="}
-	uniform := rapid.IntRange(0, 2).Draw(t, "uniform") > 0
+	seps := []string{",", ",", ",", ", ", " ,", " , ", ",\t", ",", ", ", ",", ",,", ";", " "}
+	quotes := [][2]string{{`"`, `"`}, {`"`, `"`}, {`"`, `"`}, {"", ""}, {`"`, `"`}, {"", ""}, {`"`, `"`}, {`"`, ""}, {"", `"`}, {"'", "'"}, {`""`, `""`}, {`"`, `" `}, {` "`, `"`}}
+	eqs := []string{"=", "=", "=", "=", "=", "=", "=", "=", " = ", "= ", ":", "=="}
+	uniform := rapid.IntRange(0, 3).Draw(t, "uniform") > 0
+	strict := rapid.IntRange(0, 9).Draw(t, "strict") < 4 // stay inside the strict grammar: only order, OWS, quoting, fields vary
+	if strict {
+		seps = []string{",", ",", ", ", " ,", " , ", ",\t"}
+		quotes = [][2]string{{`"`, `"`}, {`"`, `"`}, {"", ""}}
+		eqs = []string{"="}
+	}
 	sep, qt, eq := rapid.SampledFrom(seps).Draw(t, "sep"), rapid.SampledFrom(quotes).Draw(t, "quote"), rapid.SampledFrom(eqs).Draw(t, "eq")
 	var sb strings.Builder
-	sb.WriteString(rapid.SampledFrom([]string{"X-Matrix ", "X-Matrix ", "X-Matrix ", "X-Matrix ", "X-Matrix  ", "X-Matrix\t", "X-Matrix", "x-matrix ", "X-MATRIX ", "X-Matrix: ", "X-Matrix ,", "X-Matrix , "}).Draw(t, "scheme"))
+	schemes := []string{"X-Matrix ", "X-Matrix ", "X-Matrix ", "X-Matrix ", "X-Matrix ", "X-Matrix ", "X-Matrix ", "X-Matrix ", "X-Matrix  ", "X-Matrix   ", "X-Matrix\t", "X-Matrix", "x-matrix ", "X-MATRIX ", "X-Matrix: ", "X-Matrix ,", "X-Matrix , "}
+	tails := []string{"", "", "", "", "", "", "", "", ",", " ", ", ", `"`, ",x"}
+	if strict {
+		schemes, tails = []string{"X-Matrix ", "X-Matrix ", "X-Matrix  "}, []string{""}
+	}
+	sb.WriteString(rapid.SampledFrom(schemes).Draw(t, "scheme"))
 	for i, p := range ps {
 		if !uniform {
 			sep, qt, eq = rapid.SampledFrom(seps).Draw(t, "sep"), rapid.SampledFrom(quotes).Draw(t, "quote"), rapid.SampledFrom(eqs).Draw(t, "eq")
@@ -1627,7 +1658,7 @@ func c13GenHeaderSyntax(t *rapid.T) c13Case {
 		}
 		sb.WriteString(p.name + eq + qt[0] + p.val + qt[1])
 	}
-	sb.WriteString(rapid.SampledFrom([]string{"", "", "", "", ",", " ", ", ", `"`, ",x"}).Draw(t, "tail"))
+	sb.WriteString(rapid.SampledFrom(tails).Draw(t, "tail"))
 	c.T = c13Tamper{Kind: "headers", Headers: []string{sb.String()}, SigBit: rapid.IntRange(0, 511).Draw(t, "sigbit")}
 	switch rapid.IntRange(0, 9).Draw(t, "second") {
 	case 0:
